@@ -31,6 +31,13 @@ def run(ck):
     ck.rule("C07-R4", "C must-pass-through",
             "the would-block arm puts the unwritten tail back at the head of the same FIFO (pop_front then push_front) before leaving", 1)
 
+    summ = lib.Summaries(prog)
+    may_write = summ.lift_may(is_write_call, "socket-write")
+
+    def arms_write_direct(ev):
+        return ev["k"] == "call" and (ev.get("callee") or "") == "Pistache::Aio::Reactor::modifyFd" and \
+            lib.refs_enumerator(ev, "Pistache::Polling::NotifyOn::Write")
+    must_arm = summ.lift_must(arms_write_direct, "arm-write-interest")
     f = lib.single(prog, T + "asyncWriteImpl")
     arms = lib.errno_arms(f, lib.WOULD_BLOCK)
     # only arms that follow a socket write
@@ -43,7 +50,8 @@ def run(ck):
         hits = []
 
         def step(st, ev):
-            if is_write_call(ev):
+            # a helper that may write to the socket counts as a write (unless it is the drain routine's own lambda, handled by step0)
+            if is_write_call(ev) or (may_write(ev) and not (ev.get("callee") or "").startswith("lambda@")):
                 hits.append(ev)
                 return None
             return step0(st, ev)
@@ -54,10 +62,7 @@ def run(ck):
               path=["would-block test at %s" % site] + (["reaches %s" % hits[0].loc] if hits else []))
 
         # R2: must pass modifyFd(... Write ...)
-        def arms_write(ev):
-            return ev["k"] == "call" and (ev.get("callee") or "") == "Pistache::Aio::Reactor::modifyFd" and \
-                lib.refs_enumerator(ev, "Pistache::Polling::NotifyOn::Write")
-        bad = [x for x in cfg.exits_without(f, arms_write, start_block=arm, avoid_edge=None) if x.kind != "throw"]
+        bad = [x for x in cfg.exits_without(f, must_arm, start_block=arm, avoid_edge=None) if x.kind != "throw"]
         ck.ob("C07-R2", key, not bad, site, f,
               "a path leaves the would-block arm without arming write interest" if bad else "modifyFd(Read|Write) on every path")
 
@@ -121,7 +126,7 @@ def run(ck):
         miss = []
 
         def step5(st, ev):
-            if ev["k"] == "call" and (ev.get("callee") or "") == "Pistache::Aio::Reactor::modifyFd" and lib.refs_enumerator(ev, "Pistache::Polling::NotifyOn::Write"):
+            if must_arm(ev):
                 return None
             return st
 
